@@ -135,7 +135,7 @@ def stream(seed, tier, modes=(False, True), contexts=None, exh_len=None, n_soup=
 
 def impl_parse(c):
     d = c['desc']
-    if d['ctx'] in docgen.UNMODELLED_CONTEXTS:
+    if d['ctx'] in docgen.UNMODELLED_CONTEXTS or c.get('wire') == [999]:
         return 'BADIN'
     return P.parse_top(d['s'], d['tolerant'], docgen.make_db(d['ctx']), d.get('wkw'), _state_kwargs(d.get('state')))
 
@@ -211,3 +211,24 @@ def oracle_twin(d):
     if a != b:
         return ('chained-state-changes-not-applied-in-sequence', {'with_chain': a[:400], 'step_by_step': b[:400]})
     return None
+
+
+# ---- nesting -------------------------------------------------------------------------------------------------------
+DEEP = [('{', '}', 1), ('\\textbf{', '}', 1), ('\\begin{itemize}\\item ', '\\end{itemize}', 1), ('\\mbox{$', '$}', 2),
+        ('\\frac{a}{', '}', 1), ('$\\text{', '}$', 2), ('\\begin{center}{', '}\\end{center}', 2)]
+
+
+def deep_cases(tol):
+    """nested constructs well inside the interpreter's stack (modelled: the parser must do them like any other input),
+    and four documents nested deeper than the interpreter's stack allows (real code only; known finding)"""
+    out = []
+    for op, cl, per in DEEP:
+        for levels in (10, 18, 26, 32):
+            n = levels // per
+            out.append(mk_case('default', op * n + 'a' + cl * n, tol, 'deep-nesting'))
+            out.append(mk_case('default', op * n + 'a' + cl * (n - 1), tol, 'deep-nesting'))     # one closing short
+    for op, cl, per in DEEP[:4]:
+        out.append({'wire': [999], 'nt': True,
+                    'desc': {'ctx': 'default', 's': op * 400 + 'a' + cl * 400, 'tolerant': tol,
+                             'origin': 'nesting-beyond-interpreter-stack'}})
+    return out
